@@ -861,6 +861,23 @@ static void DecodeOneOpX(Word Index) {
     }
 }
 
+/* index of MOVA's indexed / symbolic mode: one word that the CPU sign-extends
+   (+-15 bit index).  A distance to a label (20 bits, wrapped) must fit into
+   that; an explicit index may also be spelled as unsigned 16 bit number: */
+
+static Boolean ChkIndexA(tAdrParts const* pAdrParts) {
+    LongInt Index = (LongInt)pAdrParts->Val;
+
+    if (pAdrParts->Part == RegPC) {
+        Index &= 0xfffff;
+        if (Index & 0x80000) {
+            Index -= 0x100000;
+        }
+        return ChkRange(Index, -32768, 32767);
+    }
+    return ChkRange(Index, -32768, 65535);
+}
+
 static void DecodeMOVA(Word Code) {
     tAdrParts AdrParts;
 
@@ -926,7 +943,7 @@ static void DecodeMOVA(Word Code) {
                         CodeLen = 2;
                         break;
                     case eModeRegDisp:
-                        if (ChkRange(AdrParts.Val, 0, 0xffff)) {
+                        if (ChkIndexA(&AdrParts)) {
                             if (Odd(EProgCounter())) {
                                 WrError(ErrNum_AddrNotAligned);
                             }
@@ -946,7 +963,7 @@ static void DecodeMOVA(Word Code) {
                 AdrParts.Val  = 0;
                 /* fall-thru */
             case eModeRegDisp:
-                if (ChkRange(AdrParts.Val, 0, 0xffff)
+                if (ChkIndexA(&AdrParts)
                     && (DecodeReg(&ArgStr[1], &WAsmCode[0], True) == eIsReg)) {
                     if (Odd(EProgCounter())) {
                         WrError(ErrNum_AddrNotAligned);
